@@ -80,3 +80,9 @@ func verifGroups(gs []groupInfo) []VerifGroup {
 	}
 	return out
 }
+
+// VerifMinimize runs the block minimizer of the shrinker (minimize) on u with
+// the given condition, so that a harness can compare it with its specification.
+func VerifMinimize(u uint64, cond func(uint64) bool) uint64 {
+	return minimize(u, func(x uint64, _ string) bool { return cond(x) })
+}
